@@ -4,6 +4,8 @@ from .. import oracles, gen
 
 class C05(Prop):
     pid = "C05"
+    quick = {"seeds": 1500, "wall_cap": 90, "chunk": 16}
+    thorough = {"seeds": 30000, "wall_cap": 1500, "chunk": 32}
     level = "exploration"
     rule = ("one case = one seeded scenario with an adaptive method (embedded pair or Richardson wrapper), either direction, initial dt from "
             "1e-4*span to 3*span, tolerances 1e-3..1e-11 scaled to the method's order; fault-injecting cases add transient rhs spikes "
